@@ -79,6 +79,7 @@ func addMenu() []AddCall {
 		{Kind: "remote", Addr: P5, Finder: "F1"},
 		{Kind: "remote", Addr: P6, Finder: "F2"},
 		{Kind: "remote", Addr: P1, Finder: "G1"}, // another finder TYPE that prints like F1
+		{Kind: "registry", Addr: R1, Allowed: "only:1.0.0", Finder: "F1"}, // same source and finder as #4, another version
 	}
 }
 
@@ -416,11 +417,11 @@ func RunBundleWorlds(id, tier string) int {
 	thorough := tier == "thorough"
 	deadline := time.Now().Add(100 * time.Second)
 	maxAdds, maxEdges := 2, 2
-	addIdx := []int{0, 1, 2, 4, 5, 6, 8, 12}
+	addIdx := []int{0, 1, 2, 4, 5, 6, 8, 12, 13}
 	if thorough {
 		deadline = time.Now().Add(25 * time.Minute)
 		maxEdges = 3
-		addIdx = []int{0, 1, 2, 3, 4, 5, 6, 7, 8, 9, 12}
+		addIdx = []int{0, 1, 2, 3, 4, 5, 6, 7, 8, 9, 12, 13}
 	}
 	genDeadline := time.Now().Add(40 * time.Second)
 	if thorough {
